@@ -15,7 +15,8 @@ open Rxn Rxn.Store
 /-- All-or-nothing: a snapshot handed to the publisher has, for every expected operator, exactly one entry,
 acknowledged with this snapshot's id by a call in the history; no other entries; every expected source runner
 acknowledged this id exactly once and the split states are exactly the reported ones, each runner's once. -/
-theorem publish_complete (calls : List Call) (snap : Snap) (h : snap ∈ published St.init calls) :
+theorem publish_complete (s0 : St) (hb : Booted s0) (calls : List Call) (snap : Snap)
+    (h : snap ∈ published s0 calls) :
     (∀ o ∈ snap.expectedOps, ∃ e ∈ snap.opEntries, e.op = o ∧ e.cp = snap.id ∧ Call.opAck o snap.id e.tag ∈ calls) ∧
     (snap.opEntries.map (·.op)).Nodup ∧
     (∀ e ∈ snap.opEntries, e.op ∈ snap.expectedOps ∧ e.cp = snap.id) ∧
@@ -23,7 +24,7 @@ theorem publish_complete (calls : List Call) (snap : Snap) (h : snap ∈ publish
     (snap.srAcks.map (·.1)).Nodup ∧
     (∀ a ∈ snap.srAcks, a.1 ∈ snap.expectedSrs) ∧
     snap.splitStates = snap.srAcks.flatMap (·.2) := by
-  have hg := published_good calls [] St.init (inv_init []) snap h
+  have hg := published_good calls [] s0 (inv_booted hb []) snap h
   simp only [List.nil_append] at hg
   obtain ⟨hw, hc, hf⟩ := hg
   simp only [Snap.isComplete, Bool.and_eq_true, all_true_iff] at hc
@@ -117,13 +118,13 @@ theorem bad_acks_harmless (s : St) (hr : Reachable s) (c : Call) (hb : badAck s 
 /-- At most one checkpoint is in progress: while one is pending `CreateCheckpoint` is refused and changes
 nothing, and over any call sequence (hence every prefix), redeployments included, every started checkpoint is
 finished, abandoned by a redeployment, or the single pending one. -/
-theorem one_pending (calls : List Call) :
-    (createdIds St.init calls).length ≤ (published St.init calls).length + abandoned St.init calls + 1 ∧
+theorem one_pending (s0 : St) (hb : Booted s0) (calls : List Call) :
+    (createdIds s0 calls).length ≤ (published s0 calls).length + abandoned s0 calls + 1 ∧
     ∀ (s : St) (p : Snap) (ops srs : List Nat), s.pending = some p →
       step s (.create ops srs) = (s, .inProgress, none) := by
   refine ⟨?_, ?_⟩
-  · have := created_le_published calls St.init
-    have hn : St.init.pending.isSome = false := rfl
+  · have := created_le_published calls s0
+    have hn : s0.pending.isSome = false := by rw [hb]; rfl
     rw [hn] at this
     simpa using this
   · intro s p ops srs hp; simp [step, hp]
@@ -152,15 +153,24 @@ theorem stale_acks_rejected (s : St) (hr : Reachable s) :
     simp [step, hp, hid]
 
 /-- Ids handed out strictly increase, and so do the ids of the published snapshots. -/
-theorem ids_strictly_increase (calls : List Call) :
-    (createdIds St.init calls).Pairwise (· < ·) ∧ ((published St.init calls).map (·.id)).Pairwise (· < ·) ∧
-    ∀ n ∈ createdIds St.init calls, 0 < n :=
-  ⟨created_pairwise calls _, published_pairwise calls [] _ (inv_init []), created_gt calls St.init⟩
+theorem ids_strictly_increase (s0 : St) (hb : Booted s0) (calls : List Call) :
+    (createdIds s0 calls).Pairwise (· < ·) ∧ ((published s0 calls).map (·.id)).Pairwise (· < ·) ∧
+    (∀ n ∈ createdIds s0 calls, s0.cid < n) ∧ (∀ snap ∈ published s0 calls, s0.cid < snap.id) :=
+  ⟨created_pairwise calls _, published_pairwise calls [] _ (inv_booted hb []), created_gt calls s0, by
+    intro snap hs
+    have := published_ge calls [] s0 (inv_booted hb []) snap hs
+    have hn : s0.pending.isSome = false := by rw [hb]; rfl
+    rw [hn] at this
+    simpa using this⟩
 
-/-- …also across restarts: in every reachable state of the whole system (any starting storage, any
+/- FULL STATEMENT (false on the code, D55): "ids strictly increase, also across job restarts", i.e. an id handed
+out after a restart is greater than every id handed out before it.
+What holds (`_partial`): the excluded case is exactly an id that was handed out but whose snapshot file had not
+been written when the job process was lost — such an id IS handed out again (`ids_reused_after_crash_counterexample`). -/
+/-- …across restarts, PARTIAL: in every reachable state of the whole system (any starting storage, any
 interleaving of calls, writes, lock sections, removals, deliveries and crashes) a newly handed out id is
-greater than every id that was ever persisted and than every id handed out since the last restart. -/
-theorem ids_increase_across_restarts (files0 : List Nat) (as : List Publish.Act) (s : Publish.Sys)
+greater than every id that was ever *persisted* and than every id handed out since the last restart. -/
+theorem ids_increase_across_restarts_partial (files0 : List Nat) (as : List Publish.Act) (s : Publish.Sys)
     (obs : List Publish.Obs) (h : Publish.run (Publish.init files0) as = some (s, obs)) (c : Call) :
     ∀ n ∈ (step s.store c).2.1.created, (∀ w ∈ s.pub.written, w < n) ∧ s.store.cid < n ∧
       (step s.store c).1.cid = n := by
@@ -171,6 +181,53 @@ theorem ids_increase_across_restarts (files0 : List Nat) (as : List Publish.Act)
   refine ⟨fun w hw => ?_, Nat.lt_succ_self _, h'.2.2.2.1⟩
   have := hi.wrCid w hw
   omega
+
+/-- the ids a trace handed out (`CreateCheckpoint` / `CreateSavepoint(created)` results), in order -/
+def handedOut : List Publish.Obs → List Nat
+  | [] => []
+  | .res r :: rest => r.created ++ handedOut rest
+  | _ :: rest => handedOut rest
+
+/-- D55 (open): checkpoint 1 is started, the job process is lost before it is published, the restarted job
+hands out id 1 again, and acknowledgements made for the old checkpoint 1 complete the new one: it is handed to
+the publisher with the old operator entry and split state. Ids do not strictly increase across restarts. -/
+theorem ids_reused_after_crash_counterexample :
+    (Publish.run (Publish.init [])
+      [.call (.create [1] [1]), .crash, .call (.create [1] [1]), .call (.opAck 1 1 99), .call (.srAck 1 1 [5])]).map
+      (fun r => (handedOut r.2, r.1.pub.finished.map (fun sn => (sn.id, sn.opEntries.map (·.tag), sn.splitStates))))
+    = some ([1, 1], [(1, [99], [5])]) := by decide
+
+/-- "Persisted, used for recovery, announced only after all acknowledgements": in every reachable state of the
+whole system every snapshot file ever written, every file present, every completed (current) checkpoint and every
+announced id either was in the storage when the job first started, or is the id of a snapshot that was handed to
+the publisher — and each of those is complete: exactly one stored entry per expected operator, carrying that id,
+no other entries, every expected source runner recorded exactly once and its split states once. -/
+theorem persisted_only_complete (files0 : List Nat) (as : List Publish.Act) (s : Publish.Sys)
+    (obs : List Publish.Obs) (h : Publish.run (Publish.init files0) as = some (s, obs)) (n : Nat)
+    (hn : n ∈ s.pub.written ∨ n ∈ s.pub.files ∨ n ∈ s.pub.completed ∨ n ∈ s.pub.delivered ∨
+      n ∈ s.pub.notifs.flatten) :
+    n ∈ files0 ∨ ∃ snap ∈ s.pub.finished, snap.id = n ∧
+      (∀ o ∈ snap.expectedOps, ∃ e ∈ snap.opEntries, e.op = o ∧ e.cp = snap.id) ∧
+      (snap.opEntries.map (·.op)).Nodup ∧
+      (∀ e ∈ snap.opEntries, e.op ∈ snap.expectedOps ∧ e.cp = snap.id) ∧
+      (∀ r ∈ snap.expectedSrs, r ∈ snap.srAcks.map (·.1)) ∧
+      (snap.srAcks.map (·.1)).Nodup ∧
+      (∀ a ∈ snap.srAcks, a.1 ∈ snap.expectedSrs) ∧
+      snap.splitStates = snap.srAcks.flatMap (·.2) := by
+  have hi := Publish.run_inv as (Publish.inv_init files0) h
+  have hinit : s.pub.initial = files0 := Publish.run_initial as h
+  have hw : n ∈ s.pub.written := by
+    rcases hn with hn | hn | hn | hn | hn
+    · exact hn
+    · exact hi.fileWr n hn
+    · exact hi.compWr n hn
+    · exact hi.notifWr n (List.mem_append_left _ hn)
+    · exact hi.notifWr n (List.mem_append_right _ hn)
+  rcases hi.wrFin n hw with h0 | ⟨snap, hs, hid⟩
+  · left; rw [← hinit]; exact h0
+  · right
+    obtain ⟨hwf, hc⟩ := hi.finGood snap hs
+    exact ⟨snap, hs, hid, complete_entries hwf hc⟩
 
 /-- Restart from a savepoint (`LoadCheckpoint` with a savepoint URI) on any storage — the job's own, with
 whatever snapshot files and history it has (`files`, `written` as in every reachable state: each persisted id is
@@ -260,7 +317,7 @@ example : createdIds St.init demoRedeploy = [1, 2] ∧ abandoned St.init demoRed
       = [(2, [(1, 7), (2, 8)], [3])] := by decide
 
 example : ∃ s c, Reachable s ∧ badAck s c ∧ (∀ p, s.pending = some p → p.ops ≠ [] ∨ p.srs ≠ []) ∧ s.pending.isSome :=
-  ⟨finalState St.init [.create [1] [1], .srAck 1 1 [3]], .srAck 1 1 [3], ⟨_, rfl⟩,
+  ⟨finalState St.init [.create [1] [1], .srAck 1 1 [3]], .srAck 1 1 [3], ⟨St.init, _, rfl, rfl⟩,
     by intro p hp; right; simp [finalState, step, St.init, newSnap, mkFlags, dedup, addSr, finishIfComplete, Snap.isComplete, setFlag, List.lookup] at hp; subst hp; simp [List.lookup],
     by intro p hp; left; simp [finalState, step, St.init, newSnap, mkFlags, dedup, addSr, finishIfComplete, Snap.isComplete, setFlag, List.lookup] at hp; subst hp; simp,
     by decide⟩
